@@ -33,13 +33,16 @@ type c02Case struct {
 	// Charset: message charset set with WithCharset ("" = the default UTF-8). With another charset the value round
 	// trip is only judged for 7-bit values (what an encoded-word labelled US-ASCII with 8-bit content means is open)
 	Charset string `json:"charset,omitempty"`
+	// MEnc: message encoding other than QP / base64 ("8bit" = NoEncoding, "usascii" = 7bit): the header encoder then
+	// is neither the Q nor the B encoder the caller picked
+	MEnc string `json:"menc,omitempty"`
 }
 
 var c02Setters = []string{"subject", "gen-header", "from-name", "to-name", "cc-name", "replyto-name", "message-id", "organization", "user-agent",
 	"attachment-name", "embed-name", "file-description", "part-description", "content-id", "mdn-name", "mdn-add-name", "set-header-alias"}
 
 // c02Apply builds the message of the given shape and applies the setter(s). It returns the first setter error.
-func c02Build(shape int, b bool, sets [][2]interface{}, late bool, charset string) (*mail.Msg, error) {
+func c02Build(shape int, b bool, sets [][2]interface{}, late bool, charset string, menc ...string) (*mail.Msg, error) {
 	lateSets := sets
 	if late {
 		// first the benign state, rendered once
@@ -52,6 +55,14 @@ func c02Build(shape int, b bool, sets [][2]interface{}, late bool, charset strin
 	enc := mail.EncodingQP
 	if b {
 		enc = mail.EncodingB64
+	}
+	if len(menc) > 0 {
+		switch menc[0] {
+		case "8bit":
+			enc = mail.NoEncoding
+		case "usascii":
+			enc = mail.EncodingUSASCII
+		}
 	}
 	mo := []mail.MsgOption{mail.WithEncoding(enc)}
 	if charset != "" {
@@ -315,8 +326,8 @@ func parseDisplayName(fieldValue, addr string) (string, error) {
 func c02Exec(r *vf.Run, k c02Case) []finding {
 	if k.Setter2 >= 0 {
 		// a pair is only interesting when each setter alone is fine: report pair-specific findings only
-		a := c02Exec(r, c02Case{Setter: k.Setter, Value: k.Value, Shape: k.Shape, B: k.B, Setter2: -1, Charset: k.Charset})
-		b := c02Exec(r, c02Case{Setter: k.Setter2, Value: k.Value2, Shape: k.Shape, B: k.B, Setter2: -1, Charset: k.Charset})
+		a := c02Exec(r, c02Case{Setter: k.Setter, Value: k.Value, Shape: k.Shape, B: k.B, Setter2: -1, Charset: k.Charset, MEnc: k.MEnc})
+		b := c02Exec(r, c02Case{Setter: k.Setter2, Value: k.Value2, Shape: k.Shape, B: k.B, Setter2: -1, Charset: k.Charset, MEnc: k.MEnc})
 		if len(a) > 0 || len(b) > 0 {
 			return nil
 		}
@@ -350,7 +361,7 @@ func c02ExecOne(r *vf.Run, k c02Case) []finding {
 		var serr, werr error
 		pan, pw := vf.Guard(func() {
 			var m *mail.Msg
-			m, serr = c02Build(k.Shape, k.B, s, k.Late, k.Charset)
+			m, serr = c02Build(k.Shape, k.B, s, k.Late, k.Charset, k.MEnc)
 			if serr == nil {
 				_, werr = m.WriteTo(&buf)
 			}
@@ -631,7 +642,7 @@ func init() {
 	vf.Register(&vf.Check{
 		ID: "C02", Title: "no caller-supplied text can alter the header block",
 		Run: func(r *vf.Run) {
-			r.SetRule("17 text-accepting setters (subject, generic header (SetGenHeader and its deprecated alias SetHeader), From/To/Cc/Reply-To and Disposition-Notification-To display names, message-id, organisation, user-agent, attachment and embed file names, file and part descriptions, content-id) × values {every byte 0..255 at start/middle/end of a carrier; all 2-grams (thorough: 3-grams) over 16 dangerous symbols CR LF NUL TAB SP \" \\ < > : ; = ? 0x80 0xFF ü; lengths 0,1,74..79,200,1000; classic injection payloads; values that as a whole look like one RFC 2047 encoded-word with every 2-gram of the symbols inside the wrapper} × header encoder {Q,B} × shape {single part, alternative, mixed+related} × message charset {UTF-8 (all), US-ASCII, ISO-8859-1, UTF-7}, alone, (2-grams) in pairs of setters, and — for the file and part attributes — applied to the existing File / Part objects after a first rendering (second rendering judged); oracle is differential: every header section must have exactly the field names of the same message built with a benign value, bodies unchanged, and the value must decode back (RFC 2047, WSP-normalised; file names after the documented '_' replacement) unless the setter returned an error; distinct by case tuple")
+			r.SetRule("17 text-accepting setters (subject, generic header (SetGenHeader and its deprecated alias SetHeader), From/To/Cc/Reply-To and Disposition-Notification-To display names, message-id, organisation, user-agent, attachment and embed file names, file and part descriptions, content-id) × values {every byte 0..255 at start/middle/end of a carrier; all 2-grams (thorough: 3-grams) over 16 dangerous symbols CR LF NUL TAB SP \" \\ < > : ; = ? 0x80 0xFF ü; lengths 0,1,74..79,200,1000; classic injection payloads; values that as a whole look like one RFC 2047 encoded-word with every 2-gram of the symbols inside the wrapper} × header encoder {Q, B, and whatever go-mail uses for 8bit / 7bit messages} × shape {single part, alternative, mixed+related} × message charset {UTF-8 (all), US-ASCII, ISO-8859-1, UTF-7}, alone, (2-grams) in pairs of setters, and — for the file and part attributes — applied to the existing File / Part objects after a first rendering (second rendering judged); oracle is differential: every header section must have exactly the field names of the same message built with a benign value, bodies unchanged, and the value must decode back (RFC 2047, WSP-normalised; file names after the documented '_' replacement) unless the setter returned an error; distinct by case tuple")
 			r.Assume("*Preformatted setters are raw by contract and excluded", "header names, content types and charsets are typed constants, not free text",
 				"message-id / content-id values are only compared when they are printable ASCII without blanks and angle brackets")
 			vals := c02Values(r.Thorough)
@@ -657,6 +668,17 @@ func init() {
 							continue
 						}
 						cases = append(cases, c02Case{Setter: s, Value: v, Shape: (vi + s) % 3, B: (vi/3+ci)%2 == 0, Setter2: -1, Charset: cs})
+					}
+				}
+			}
+			// message encodings 8bit and 7bit (another header encoder): every setter × every value
+			for mi, me := range []string{"8bit", "usascii"} {
+				for s := range c02Setters {
+					for vi, v := range vals {
+						if !r.Thorough && vi >= 768 && len(v) > 2 && (vi+s)%2 != mi {
+							continue
+						}
+						cases = append(cases, c02Case{Setter: s, Value: v, Shape: (vi + s) % 3, Setter2: -1, MEnc: me})
 					}
 				}
 			}
